@@ -24,7 +24,7 @@ RULE = ("scenario = (items preloaded in the memcached model, client configuratio
         "and exact 4096-byte pieces. Oracle (metamorphic): result (value incl. type, or exception class) equals the "
         "unsplit result, which itself equals the expected value computed from what was stored; the receive queue is "
         "empty afterwards; nothing blocks. Non-trivial: a cut falls inside a CR LF, directly after one (line / data "
-        "block boundary), or inside the last 8 bytes (end token), or EINTR is injected. Also multi-key reads through a deserializer that fails on the first / middle / last returned value, with and without ignore_exc, on all client stacks and after an earlier failed read. A Client subclass overriding _extract_value (every stack) must add the same thing under every segmentation. Several readers: two or three users of one pooled client, replies in pieces of 1-7 bytes, turns taken at every socket call - each call returns what it returns alone and unsplit. Reply dialects (items reordered, deduplicated, repeated or unasked for, a cas field not asked for, blanks or a tab in the VALUE line, odd VERSION and STAT lines) are reply streams like any other: cut anywhere, the result is the same.")
+        "block boundary), or inside the last 8 bytes (end token), or EINTR is injected. Also multi-key reads through a deserializer that fails on the first / middle / last returned value, with and without ignore_exc, on all client stacks and after an earlier failed read. A Client subclass overriding _extract_value (every stack) must add the same thing under every segmentation. Several readers: two or three users of one pooled client, replies in pieces of 1-7 bytes, turns taken at every socket call - each call returns what it returns alone and unsplit. Reply dialects (items reordered, deduplicated, repeated or unasked for, a cas field not asked for, blanks or a tab in the VALUE line, odd VERSION and STAT lines) are reply streams like any other: cut anywhere, the result is the same. Many pieces: one value trickling in over 1000 to 10 000 recv() results (pieces of 1, 2, 3, 7 bytes), the last cut before, inside and after the closing CR LF.")
 MANIFEST = {
     "category": "exploration",
     "technique": "metamorphic testing over enumerated segmentations (all cut subsets for short reply streams, all 1-3 cut combinations for medium ones, receive-size-aligned cuts for long ones) of a scenario corpus produced by a memcached model, plus Hypothesis-drawn values and cut lists",
